@@ -258,7 +258,7 @@ pub enum J {
 pub const NUMS: &[&str] = &["0", "-0", "1", "12", "-3.5", "1e3", "2E-2", "0.0", "123456789", "1.5e+10"];
 pub const STRS: &[&str] = &[
     "", "x", "hello world", "\\n", "\\u00e9", "\u{e9}", "\\\"q\\\"", "a\\\\b", "\u{1F600}", "/", "x\\\\", "\\\\", "\\\\\\\\", "C:\\\\tmp\\\\",
-    "\\ud834\\udd1e", "\\\\\\\"",
+    "\\ud834\\udd1e", "\\\\\\\"", "a\u{7f}b", "\u{85}", "x\u{9f}", "\u{a0}\u{2028}",
 ];
 
 impl J {
